@@ -255,6 +255,7 @@ type Query struct {
 	Props     []string
 	Clause    string // contract clause text (for hashing / reporting)
 	FalseGoal bool
+	Exit      *ExitInfo // the function exit this query was generated at (for replay)
 }
 
 type Verdict struct {
